@@ -25,6 +25,7 @@
 -/
 import Mpir.Base
 import Mpir.Model.DivZ
+import Mpir.Model.Bits
 namespace Mpir.AliasMem
 open Mpir
 open Mpir.DivZ (sizeNat siz sameSign)
@@ -213,6 +214,7 @@ structure Variant where
   copyBeforeFree : Bool := true    -- divexact.c:79-82: the copy back to quot precedes TMP_FREE
   zeroAfterShift : Bool := true    -- mul_2exp.c:64-66: MPN_ZERO (wp, limb_cnt) after the shift "not to lose for U == W"
   roundBeforeShift : Bool := true  -- cfdiv_q_2exp.c:57-62: the skipped low limbs are inspected before the shift
+  reread : Bool := true            -- and.c:58-63, ior.c:52-55, xor.c:52-55 …: pointers re-read after `_mpz_realloc (res, …)`
   deriving Repr
 
 def Variant.c : Variant := {}
@@ -550,6 +552,87 @@ def tdiv_q_2exp (w u cnt : Nat) (s : St) : R St := do
     else do
       let s ← mpn_copy true wp 0 up limb_cnt wsize s          -- :56 MPN_COPY_INCR
       pure (s.setSize w (if usize ≥ 0 then (wsize : Int) else -(wsize : Int)))     -- :59
+
+/-! ## mpz_and, mpz_ior, mpz_xor, mpz_com: pointers fetched early, re-read after the reallocation -/
+
+/-- what a sign case of and.c / ior.c / xor.c does before its limb loops: which operands were replaced by a TMP copy
+    (`opx = TMP_ALLOC …; mpn_sub_1 (opx, opN_ptr, …, 1); opN_ptr = opx`), how many limbs it asks for, and the result
+    of the limb loops as a function of the operand magnitudes (value-level mirror: Mpir/Model/Bits.lean, proved equal
+    to Int.land / lor / xor in C10).  The model's TMP block keeps |op| where the C keeps |op| - 1: the decrement is
+    part of `result`; what matters here is WHICH block is read after the reallocation. -/
+structure LogicPlan where
+  tmp1 : Bool
+  tmp2 : Bool
+  need : Nat
+  result : Bits.Z
+
+/-- mpz/and.c: PP exact size after the scan (:48-62); NN `1 + MAX` (:95), both operands in TMP (:97-104);
+    PN `op1_size` if the non-negative operand is longer (:219-221), else the exact size (:245-253), the negative
+    operand in TMP (:212-215).  In the two PN cases and in PP the request equals the length of the result. -/
+def andPlan (n1 : Bool) (a : List Nat) (n2 : Bool) (b : List Nat) : LogicPlan :=
+  let z := Bits.mpz_and ⟨n1, a⟩ ⟨n2, b⟩
+  if n1 && n2 then ⟨true, true, 1 + max a.length b.length, z⟩
+  else ⟨n1, n2, z.mag.length, z⟩
+
+/-- mpz/xor.c: PP `MAX` (:48-80); NN `MAX`, both in TMP (:106-120); PN `MAX + 1`, the negative operand in TMP (:166-177). -/
+def xorPlan (n1 : Bool) (a : List Nat) (n2 : Bool) (b : List Nat) : LogicPlan :=
+  let z := Bits.mpz_xor ⟨n1, a⟩ ⟨n2, b⟩
+  if n1 && n2 then ⟨true, true, max a.length b.length, z⟩
+  else if n1 || n2 then ⟨n1, n2, max a.length b.length + 1, z⟩
+  else ⟨false, false, max a.length b.length, z⟩
+
+/-- mpz/ior.c: PP `MAX` (:48-80); NN `MIN`, both in TMP (:106-120); PN the size of the negative operand, which is in
+    TMP (:178-187). -/
+def iorPlan (n1 : Bool) (a : List Nat) (n2 : Bool) (b : List Nat) : LogicPlan :=
+  let z := Bits.mpz_ior ⟨n1, a⟩ ⟨n2, b⟩
+  if n1 && n2 then ⟨true, true, min a.length b.length, z⟩
+  else if n1 then ⟨true, false, a.length, z⟩
+  else if n2 then ⟨false, true, b.length, z⟩
+  else ⟨false, false, max a.length b.length, z⟩
+
+/-- the pointer plumbing common to mpz_and / mpz_ior / mpz_xor (and.c:37-43, 55-63, 106-113, 223-231 …) -/
+def logicV (V : Variant) (plan : Bool → List Nat → Bool → List Nat → LogicPlan) (res op1 op2 : Nat) (s : St) : R St := do
+  let sz1 := s.size op1                                       -- and.c:37
+  let sz2 := s.size op2                                       -- :38
+  let p1 := s.ptr op1                                         -- :40  (early: before any reallocation)
+  let p2 := s.ptr op2                                         -- :41
+  let pr := s.ptr res                                         -- :42
+  let a ← s.load p1 sz1.natAbs                                -- the size scan / mpn_sub_1 into TMP read through these
+  let b ← s.load p2 sz2.natAbs
+  let pl := plan (decide (sz1 < 0)) a (decide (sz2 < 0)) b
+  let (p1, s) ← s.copyIf pl.tmp1 p1 sz1.natAbs                -- op1_ptr = opx
+  let t1 := if pl.tmp1 then [p1] else []
+  let (p2, s) ← s.copyIf pl.tmp2 p2 sz2.natAbs                -- op2_ptr = opx
+  let t2 := if pl.tmp2 then [p2] else []
+  let moved : Bool := s.alloc res < pl.need                   -- if (res->_mp_alloc < …)
+  let s := s.mpzRealloc res pl.need                           --   _mpz_realloc (res, …);
+  let pr := if moved ∧ V.reread then s.ptr res else pr        --   res_ptr = res->_mp_d;
+  let p1 := if moved ∧ V.reread ∧ !pl.tmp1 then s.ptr op1 else p1   -- op1_ptr = op1->_mp_d; unless it points to TMP
+  let p2 := if moved ∧ V.reread ∧ !pl.tmp2 then s.ptr op2 else p2   -- ("Don't re-read OP2_PTR.  It points to temporary space")
+  let a ← s.load p1 sz1.natAbs                                -- the limb loops (same index read before it is written:
+  let b ← s.load p2 sz2.natAbs                                --  res_ptr == op1_ptr / op2_ptr is harmless)
+  let z := (plan (decide (sz1 < 0)) a (decide (sz2 < 0)) b).result
+  let s ← s.store pr z.mag
+  let s := s.setSize res (if z.neg then -(z.mag.length : Int) else (z.mag.length : Int))
+  pure ((t1 ++ t2).foldl St.free s)                           -- TMP_FREE
+
+def mpz_and := logicV .c andPlan
+def mpz_xor := logicV .c xorPlan
+def mpz_ior := logicV .c iorPlan
+
+/-- mpz_com (dst, src): com.c:27-86.  `_mpz_realloc` first, THEN `src_ptr = src->_mp_d` (:42-43, :71-72). -/
+def mpz_comV (V : Variant) (dst src : Nat) (s : St) : R St := do
+  let size := s.size src                                      -- com.c:29
+  let early := s.ptr src
+  let need := if size ≥ 0 then size.natAbs + 1 else size.natAbs   -- :39, :68
+  let s := s.mpzRealloc dst need                              -- :39-40 / :68-69
+  let sp := if V.ptrAfterRealloc then s.ptr src else early    -- :42 / :71
+  let a ← s.load sp size.natAbs
+  let z := Bits.mpz_com ⟨decide (size < 0), a⟩                -- :45-65 / :74-83
+  let s ← s.store (s.ptr dst) z.mag
+  pure (s.setSize dst (if z.neg then -(z.mag.length : Int) else (z.mag.length : Int)))
+
+def mpz_com := mpz_comV .c
 
 /-! ## building a state from values (driver, examples) -/
 
